@@ -12,7 +12,11 @@ BOUNDS = {}          # id of an uninterpreted constant -> (lo, hi) learned from 
 
 
 def reset_bounds():
+    """Start of a path: drop every cached fact.  The caches are keyed by AST ids, which z3 recycles once a term is
+    freed, so the memo, the kept references and the learned bounds must always be dropped together."""
     BOUNDS.clear()
+    _MEMO.clear()
+    del _KEEP[:]
 
 
 def learn(cond):
@@ -65,12 +69,8 @@ def rng(t, depth=0):
     if key in _MEMO:
         return _MEMO[key]
     r = _rng(t, depth)
-    if len(_MEMO) > 200000:
-        _MEMO.clear()
     _MEMO[key] = r
-    _KEEP.append(t)
-    if len(_KEEP) > 400000:
-        del _KEEP[:200000]
+    _KEEP.append(t)          # keeps the term alive, so its id cannot be recycled while the memo entry exists
     return r
 
 
